@@ -17,7 +17,8 @@ func catalogPods() []PodCase {
 			return corev1.Container{Name: n, Image: "img-" + n, SecurityContext: compliantSC()}
 		}
 		e := mk("eph")
-		return &corev1.Pod{ObjectMeta: metav1.ObjectMeta{Name: "cat", Namespace: "ns"}, Spec: corev1.PodSpec{
+		// every catalogue pod carries the same uid and resourceVersion: an object identity says nothing about its content
+		return &corev1.Pod{ObjectMeta: metav1.ObjectMeta{Name: "cat", Namespace: "ns", UID: "1b4e28ba-2fa1-11d2-883f-0016d3cca427", ResourceVersion: "4711", Generation: 3}, Spec: corev1.PodSpec{
 			InitContainers:      []corev1.Container{mk("init")},
 			Containers:          []corev1.Container{mk("ctr")},
 			EphemeralContainers: []corev1.EphemeralContainer{{EphemeralContainerCommon: corev1.EphemeralContainerCommon{Name: e.Name, Image: e.Image, SecurityContext: e.SecurityContext}}},
